@@ -376,8 +376,8 @@ theorem hex_text_decodes (l : Line) (ls : List Line) :
     unhexChars (hexChars (wkbMultiLineString ls)) = some (wkbMultiLineString ls) :=
   ⟨unhexChars_hexChars _ (wkbLineString_lt l), unhexChars_hexChars _ (wkbMultiLineString_lt ls)⟩
 
-/-- shape of the text: 9 header bytes and 16 bytes per point, two characters each — every point of the
-concatenation (joint points included) is in the text -/
+/-- length of the text only: 9 header bytes and 16 bytes per point, two characters each (that the bytes are
+the points of the concatenation, joint points included, is `wkb_text_is_hex_of_geometry`) -/
 theorem wkb_text_length (l : Line) : (hexChars (wkbLineString l)).length = 2 * (9 + 16 * l.length) := by
   rw [hexChars_length, wkbLineString_length]
 
